@@ -55,7 +55,7 @@ REPO_FAMILIES = [("factory", "sa"), ("factory_square", "sa"), ("noisy_factory", 
                  ("xos", "sam"), ("xos3", "sam"), ("xs", "sam"), ("oxs", "sam"),
                  ("k_budget_generator", "sam"), ("covg_fn_generator", "sam")]
 OWN_FAMILIES = [("own_sa_int", "sa"), ("own_sa_dyadic", "sa"), ("own_additive", "sa"), ("own_sa_neg", "sa"),
-                ("own_sam", "sam"), ("own_pow2", "sa")]
+                ("own_sam", "sam"), ("own_pow2", "sa"), ("own_wide_range", "sa")]
 
 # what each property's tie compares (weakest sufficient tie, DESIGN 6): the solver / undo clauses do not depend on
 # the observation or on `done`; the linear environment passes the inner `done` through (checked against the real
@@ -133,6 +133,13 @@ def own_game(fam: str, n: int, rnd):
         v = G.additive_game(n, rnd, rnd.choice(["int", "dyadic"]))
     elif fam == "own_sam":
         v = G.sam_game(n, rnd)
+    elif fam == "own_wide_range":
+        # a huge SYMMETRIC main term (every coalition of one size ties in it) plus a small superadditive perturbation: rewards of
+        # the order of 2^40 whose genuine differences between actions are tens to hundreds — equal only up to 1e-10 relative,
+        # never equal.  "Maximal immediate reward" means maximal, not "within a relative tolerance of the maximum".
+        pert = G.sa_game(n, rnd, "int")
+        v = [Fraction(2 ** 40) * G.popcount(c) ** 2 + 64 * pert[c] for c in range(N)]
+        v[0] = Fraction(0)
     elif fam == "own_pow2":
         # integer superadditive game whose normalised values are dyadic (surplus of N is a power of two):
         # float sums of normalised values are then exact (used for the linear observation)
